@@ -28,6 +28,9 @@ type c15Key struct {
 	Exp   int           `json:"exp"`   // index into Exporters
 	Tpl   wire.Template `json:"tpl"`
 	Recs  []wire.Record `json:"recs"`
+	// HdrTime != 0: export time (IPFIX) / UNIX seconds (NetFlow v9) of this key's messages: the exporter's clock is its
+	// own business (never set, a day behind, years ahead) and is no part of what a template means
+	HdrTime uint32 `json:"hdr_time,omitempty"`
 }
 
 type c15Cycle struct {
@@ -89,7 +92,7 @@ type c15Case struct {
 }
 
 const c15Rule = "case = 1..3 stop/start cycles of the real collector binary (each instance with all CPUs or its affinity restricted to 1, 2, 4 or 8; 2..8 workers per protocol; in about 3 of 4 cases a generated subset of the four protocols is switched off by configuration, at least one of IPFIX / NetFlow v9 stays on; rawSocket sink and restful stats owned by the harness, per-instance pid and cache files (in a quarter of the cases given as relative names with a working directory other than the configuration's), in a quarter of the cases on a file system other than the temporary directory's) with 1..8 exporters on 127.0.0.x and ::1 (in a quarter of the cases without ::1 the listeners are bound to 127.0.0.1, so that the collector sees 4-octet exporter addresses): " +
-	"per cycle new IPFIX / NetFlow v9 templates are announced (or all known ones redefined with a shorter definition, so that the next cache file is shorter than the one it replaces; or, in a quarter of the later cycles, a quiet life: nothing new, one known template re-announced with a single specifier changed — a scope field if it has any) and acknowledged (a data message using them reached the sink), sFlow/NetFlow v5 noise, in 1 cycle of 4 a further exporter announcing 1500, 3000, 6000 or 12 000 templates first (a cache file of megabytes; some 240 of them, spread over the population, are seen to work before the signal and must work after every later restart without being resent), a data burst, then SIGTERM or SIGINT after a drawn delay (in 5 of 8 cycles sent once, otherwise repeated 1..1100 ms later), " +
+	"per cycle new IPFIX / NetFlow v9 templates are announced (each key's messages carry a drawn export time: the usual one, 1000 s or a day after 1970, years back, about now, a week ahead, the year 2096; or all known ones redefined with a shorter definition, so that the next cache file is shorter than the one it replaces; or, in a quarter of the later cycles, a quiet life: nothing new, one known template re-announced with a single specifier changed — a scope field if it has any) and acknowledged (a data message using them reached the sink), sFlow/NetFlow v5 noise, in 1 cycle of 4 a further exporter announcing 1500, 3000, 6000 or 12 000 templates first (a cache file of megabytes; some 240 of them, spread over the population, are seen to work before the signal and must work after every later restart without being resent), a data burst, then SIGTERM or SIGINT after a drawn delay (in 5 of 8 cycles sent once, otherwise repeated 1..1100 ms later), " +
 	"optionally with traffic (data and announcements of fresh template ids; in a quarter of those cycles dense and unpaced, so that the receive queue is full at the signal) continuing through the shutdown window, or with single late datagrams 0.9..2.1 s after the signal following a quiet period; in a fifth of the later cycles the collector first lives once with producer-enabled: false (data, sFlow and NetFlow v5 datagrams, the cycle's signal: exit 0 within 6 s); in a quarter of the later cycles an instance is first started while one of its UDP ports is held by another process (and signalled 1.2 s later if still there); a final verification restart follows the last cycle; " +
 	"oracle per cycle = exit status 0 within 6 s of the signal, stderr free of panic / fatal error / concurrent map, both cache files exist, load and decode data for every acknowledged (exporter,id) to the reference decode, " +
 	"and after the restart data sent WITHOUT templates for every acknowledged (exporter,id) is published with the reference payload; " +
@@ -151,7 +154,8 @@ func genC15(t *rapid.T) c15Case {
 		usedID[fmt.Sprint(proto, exp, id)] = true
 		tp := envs[proto].GenTemplate(t, id)
 		ds := envs[proto].GenDataSet(t, &tp, 3)
-		return c15Key{Proto: proto, Exp: exp, Tpl: tp, Recs: ds.Recs}
+		return c15Key{Proto: proto, Exp: exp, Tpl: tp, Recs: ds.Recs,
+			HdrTime: rapid.SampledFrom([]uint32{0, 0, 0, 0, 1000, 86400, 1500000000, 1790000000, 1790600000, 4000000000}).Draw(t, "hdrtime")}
 	}
 	nc := rapid.IntRange(1, 3).Draw(t, "ncycles")
 	for i := 0; i < nc; i++ {
@@ -241,6 +245,9 @@ func (r *c15Rig) announceMsg(k *c15Key) []byte {
 		kind = "opt"
 	}
 	m := wire.Msg{Proto: k.Proto, Seq: r.seq, Time: 1700000000, Domain: uint32(k.Exp), Count: 1, Sets: []wire.Set{{Kind: kind, Tpls: []wire.Template{k.Tpl}}}}
+	if k.HdrTime != 0 {
+		m.Time = k.HdrTime
+	}
 	return m.Bytes()
 }
 
@@ -248,6 +255,9 @@ func (r *c15Rig) dataMsg(k *c15Key) []byte {
 	r.seq++
 	tp := k.Tpl
 	m := wire.Msg{Proto: k.Proto, Seq: r.seq, Time: 1700000001, Domain: uint32(k.Exp), Count: uint16(len(k.Recs)), Sets: []wire.Set{{Kind: "data", Tpl: &tp, Recs: k.Recs}}}
+	if k.HdrTime != 0 {
+		m.Time = k.HdrTime + 1
+	}
 	return m.Bytes()
 }
 
